@@ -35,6 +35,8 @@ type engine struct {
 	rep  *lib.Report
 	alt  map[string]int // per-class toggle: wrapper / direct call (C12)
 	note string         // appended to the next monitor verdict (which contexts were crossed)
+
+	normHits map[string]int // per finding key: hits of the normalisation-pair monitors (c13b.go)
 }
 
 // ---- primitive oracle (stdlib / third-party, called directly) ----
